@@ -149,13 +149,18 @@ fn run_bounded(c: &Cfg) -> (String, bool, Option<bool>) {
             }
             let last = msgs.iter().filter(|m| m.ecu == 0).last().copied().unwrap_or(M { ecu: 0, recv: 1_700_000_000_000_000, ts: 0, has_ts: true, ctrl: false });
             let base_recv = msgs.iter().map(|m| m.recv).max().unwrap_or(last.recv);
-            for k in 0..tail {
-                let m = M { ecu: 0, recv: base_recv + (k as u64 + 1) * 1_000_000, ts: last.ts.saturating_add((k as u32 + 1) * 10_000), has_ts: true, ctrl: false };
+            // (paced: the failure has to travel upstream through every stage thread, which takes a few scheduler wake-ups;
+            //  a source that dumps its whole tail into the channels within microseconds would not be a live one)
+            for k in 0..tail * 10 {
+                let m = M { ecu: 0, recv: base_recv + (k as u64 + 1) * 1_000_000, ts: last.ts.saturating_add((k as u32 + 1).saturating_mul(10_000)), has_ts: true, ctrl: false };
                 let mut d = mk(&m);
                 d.index = (msgs.len() + k) as u32;
                 if sync_sender_send_delay_if_full(d, &tx0).is_err() {
                     failed = true;
                     break;
+                }
+                if k >= 50 {
+                    std::thread::sleep(Duration::from_micros(500));
                 }
             }
         }
